@@ -80,10 +80,22 @@ impl RefQueue {
         let idx = self.pending.iter().position(|p| p.0 == name)?;
         Some(self.pending.remove(idx).1)
     }
-    fn remove_one_running(&mut self, name: &str) {
-        if let Some(idx) = self.running.iter().position(|r| r.1 == name) {
-            self.running.remove(idx);
+    /// "finish the old task if it is running": if several tasks of the name
+    /// are running (a pending one was claimed while another still ran) it is
+    /// not defined which one goes; follow the real queue, provided exactly
+    /// one is gone.
+    fn remove_one_running_like(&mut self, name: &str, real_running_keys: &[String]) -> Result<(), String> {
+        let mine: Vec<String> = self.running.iter().filter(|r| r.1 == name).map(|r| r.0.clone()).collect();
+        if mine.is_empty() {
+            return Ok(());
         }
+        let gone: Vec<&String> = mine.iter().filter(|k| !real_running_keys.contains(k)).collect();
+        if gone.len() != 1 {
+            return Err(format!("'finish if running' for '{name}': running before {mine:?}, the queue now has {real_running_keys:?}"));
+        }
+        let idx = self.running.iter().position(|r| &r.0 == gone[0]).unwrap();
+        self.running.remove(idx);
+        Ok(())
     }
 }
 
@@ -133,7 +145,8 @@ fn q_apply(s: &mut QSys, op: &QOp) -> Result<(), String> {
                     s.r.add_pending(name, t);
                 }
                 1 => {
-                    s.r.remove_one_running(name);
+                    let real: Vec<String> = list(&s.storage, QNS, "running").into_iter().filter(|x| x.1 == name).map(|x| x.2).collect();
+                    s.r.remove_one_running_like(name, &real)?;
                     let old = s.r.remove_one_pending(name);
                     let t = old.map(|o| o.min(ts)).unwrap_or(ts);
                     s.r.add_pending(name, t);
@@ -150,7 +163,8 @@ fn q_apply(s: &mut QSys, op: &QOp) -> Result<(), String> {
                     s.r.add_pending(name, ts);
                 }
                 _ => {
-                    s.r.remove_one_running(name);
+                    let real: Vec<String> = list(&s.storage, QNS, "running").into_iter().filter(|x| x.1 == name).map(|x| x.2).collect();
+                    s.r.remove_one_running_like(name, &real)?;
                     s.r.remove_one_pending(name);
                     s.r.add_pending(name, ts);
                 }
@@ -327,8 +341,17 @@ pub fn queue_bfs(depth: usize, quick: bool) -> BfsStats {
         let (s, _) = q_build(&hist);
         for op in q_enabled(&s, quick) {
             let mut h = hist.clone();
-            h.push(op);
-            let (s2, res) = q_build(&h);
+            h.push(op.clone());
+            // The state is rebuilt by re-running the history on a fresh
+            // store. Which of several tasks with the same time stamp a claim
+            // hands out follows the key order of krill's memory store (a hash
+            // map), so the rebuilt state may differ from the one the
+            // operation was enabled in: enable and apply in the same build.
+            let (mut s2, res0) = q_build(&hist);
+            if res0.is_err() || !q_enabled(&s2, quick).contains(&op) {
+                continue;
+            }
+            let res = q_apply(&mut s2, &op);
             st.transitions += 1;
             if let Err(e) = res {
                 st.violation = Some((h, e));
